@@ -335,5 +335,5 @@ def run(acc, tier):
         engine.pmap(acc, shard_small_classical, extra=(3, 3))
         engine.pmap(acc, shard_small_mesh, extra=(4,))
         engine.pmap(acc, shard_triples_classical, extra=(2, 4))
-        engine.pmap(acc, shard_generated, extra=(1500, 800))
-        engine.fuzz(acc, "hyp:basis", CHECKS, 3000, max_len=4096)
+        engine.pmap(acc, shard_generated, extra=(8000, 4000))
+        engine.fuzz(acc, "hyp:basis", CHECKS, 20000, max_len=4096)
